@@ -638,15 +638,23 @@ Definition w_small_st := st_of
   [ed 0 0 1 "R" [("eu", VInt 500); ("w", VInt 1)]; ed 1 0 2 "R" [("eu", VInt 501); ("w", VInt 2)]; ed 2 1 2 "R" [("eu", VInt 502); ("w", VInt 3)]].
 Definition w_base_pat := mkPat (mkNP "a" []) [hop1 Out (Some "R") (Some "r") "b"].
 Definition w_k5_q := mkQ w_base_pat None (RPlain [EVar "a"] true) [] None None.
-Lemma return_distinct_refuted_l : exists st q,
-  k5_return_distinct q = true /\ plan_rows st (gql_plan_of q) <> answer st q /\ plan_rows st (cypher_plan_of q) <> answer st q.
-Proof. exists w_small_st, w_k5_q. split; [reflexivity|]. split; intro H; vm_compute in H; discriminate H. Qed.
+(** repaired by 36a1196: before it the plan behaved as with the DISTINCT flag cleared *)
+Lemma return_distinct_pre_refuted_l : exists st q,
+  k5_return_distinct q = true /\ plan_rows st (clear_distinct (gql_plan_of q)) <> answer st q /\
+  plan_rows st (gql_plan_of q) = answer st q /\ plan_rows st (cypher_plan_of q) = answer st q.
+Proof. exists w_small_st, w_k5_q. split; [reflexivity|]. split; [intro H; vm_compute in H; discriminate H|]. split; reflexivity. Qed.
 
 Definition w_k6_q := mkQ w_base_pat None (RPlain [EProp "a" "u"; EVar "b"] false)
                          [OEnv (EProp "a" "u") true; OEnv (EProp "r" "eu") true] None (Some 1%nat).
-Lemma gql_limit_before_order_refuted_l : exists st q,
-  k6_gql_limit_first LGql q = true /\ plan_rows st (gql_plan_of q) <> answer st q.
-Proof. exists w_small_st, w_k6_q. split; [reflexivity|]. intro H; vm_compute in H; discriminate H. Qed.
+(** repaired by ce12a2a: SKIP/LIMIT used to be applied before ORDER BY *)
+Lemma gql_limit_before_order_pre_refuted_l : exists st q,
+  k6_gql_limit_first_pre LGql q = true /\ plan_rows st (gql_plan_pre_of q) <> answer st q /\ plan_rows st (gql_plan_of q) = answer st q.
+Proof. exists w_small_st, w_k6_q. split; [reflexivity|]. split; [intro H; vm_compute in H; discriminate H|reflexivity]. Qed.
+(** still open: GQL applies SKIP/LIMIT below RETURN, i.e. before DISTINCT *)
+Definition w_k6d_q := mkQ w_base_pat None (RPlain [EVar "a"] true) [] None (Some 2%nat).
+Lemma gql_limit_before_distinct_refuted_l : exists st q,
+  k6_gql_limit_first LGql q = true /\ plan_rows st (gql_plan_of q) <> answer st q /\ plan_rows st (cypher_plan_of q) = answer st q.
+Proof. exists w_small_st, w_k6d_q. split; [reflexivity|]. split; [intro H; vm_compute in H; discriminate H|reflexivity]. Qed.
 
 Definition w_k7_q := q_plain (mkPat (mkNP "a" ["A"; "B"]) []) [EVar "a"].
 Lemma multi_label_refuted_l : exists st q,
@@ -670,16 +678,22 @@ Definition w_agg_st := st_of
   [ed 0 0 1 "R" [("eu", VInt 500); ("w", VInt 1)]; ed 1 1 2 "R" [("eu", VInt 501); ("w", VInt 2)]].
 Definition w_single := mkPat (mkNP "a" ["A"]) [].
 Definition w_k12_q := mkQ w_single None (RAgg [] [mkAgg ACountNN (Some (EProp "a" "y")) false None]) [] None None.
-(** the Cypher translator emits Count (count-star semantics) where GQL emits CountNonNull *)
-Definition w_k12_cypher_plan : lop := LAggregate [] [mkAgg ACount (Some (EProp "a" "y")) false None] (chain_plan w_single).
-Lemma cypher_count_refuted_l : exists st q,
-  k12_cypher_count LCypher q = true /\ plan_rows st w_k12_cypher_plan <> answer st q /\ plan_rows st (gql_plan_of q) = answer st q.
-Proof. exists w_agg_st, w_k12_q. split; [reflexivity|]. split; [intro H; vm_compute in H; discriminate H|reflexivity]. Qed.
+(** repaired by a5bb467: the Cypher translator emitted Count (count-star semantics) where GQL emits CountNonNull *)
+Lemma cypher_count_pre_refuted_l : exists st q,
+  k12_cypher_count LCypher q = true /\ plan_rows st (cypher_plan_pre_of q) <> answer st q /\
+  plan_rows st (cypher_plan_of q) = answer st q /\ plan_rows st (gql_plan_of q) = answer st q.
+Proof. exists w_agg_st, w_k12_q. split; [reflexivity|]. split; [intro H; vm_compute in H; discriminate H|]. split; reflexivity. Qed.
 
 Definition w_k13_q := mkQ w_single None (RAgg [] [mkAgg AMin (Some (EProp "a" "x")) false None]) [] None None.
-Lemma typed_result_refuted_l : exists st q,
-  k13_typed_result st q = true /\ plan_rows st (gql_plan_of q) <> answer st q /\ plan_rows st (cypher_plan_of q) <> answer st q.
-Proof. exists w_agg_st, w_k13_q. split; [reflexivity|]. split; intro H; vm_compute in H; discriminate H. Qed.
+(** repaired by 41c4655 + dfd360c: the typed result vectors turned a string minimum into 0 *)
+Lemma typed_result_pre_refuted_l : exists st q rs,
+  k13_typed_result st q = true /\ answer st q = Ok rs /\
+  map (map cell_val) (typed_rows_pre [agg_coltype_pre (mkAgg AMin (Some (EProp "a" "x")) false None)] (map (map CVal) rs)) <> rs /\
+  plan_rows st (gql_plan_of q) = answer st q /\ plan_rows st (cypher_plan_of q) = answer st q.
+Proof.
+  exists w_agg_st, w_k13_q, [[VStr "a"]]. split; [reflexivity|]. split; [reflexivity|].
+  split; [intro H; vm_compute in H; discriminate H|]. split; reflexivity.
+Qed.
 
 (** the pre-df57ccb FilterOperator: a filter stacked on a filter resurrects rows the inner one removed *)
 Lemma filter_stack_pre_refuted_l : exists (rows : list row) (p1 p2 : row -> bool),
@@ -1134,7 +1148,7 @@ Proof.
   intros Hr Ho Hs Hw Hc. destruct (return_sem st items t Hw Hc) as (t2 & Hret & Hout).
   unfold plan_rows, cypher_plan_of. rewrite Hr, Ho. cbn [opt_sort].
   assert (H2 : sem_ops st (LReturn (ret_items items) false (where_plan (q_where q) (chain_plan (q_pat q)))) = Ok t2)
-    by (cbn [sem_ops]; rewrite Hs; exact Hret).
+    by (cbn [sem_ops]; rewrite Hs; cbn [rbind]; rewrite Hret; reflexivity).
   destruct (q_skip q) as [s|], (q_limit q) as [n|]; cbn [opt_skip opt_limit spec_skip spec_limit];
     rewrite ?sem_ops_limit, ?sem_ops_skip, H2; cbn [rbind]; rewrite ?limit_out, ?skip_out, Hout; reflexivity.
 Qed.
